@@ -25,13 +25,16 @@ EXTENDS Naturals, FiniteSets, Sequences, TLC
 CONSTANTS
     Kids,            \* key ids the environment may create
     NameClasses,     \* classes of storage names a key reference may carry
-    JwkClasses,      \* class of a caller supplied `jwk` header: none | public | private | symmetric
+    JwkClasses,      \* caller supplied `jwk` header: <<class, key family>>, class in none | pub | priv | sym, every key family jwx knows
+    MaxGen,          \* how often a key may be (re)created under the same key id
     Backends,        \* storage backends behind the wrapper: fs | vault
     MaxOps,          \* bound on the number of operations of a behaviour
     Hist,
     \* deviations of the code from the property (descriptive variant); all FALSE = prescriptive
     PatternAdmitsDotDot,  \* the name pattern lets the name ".." (dots only) through
-    PrivateJwkEchoed      \* SignJWS would sign with a private key in the jwk header (and echo it)
+    RefusedSecretFamilies, \* key families whose PRIVATE / SYMMETRIC jwk header SignJWS refuses (prescriptive: all of them)
+    StaleSignerCache,      \* the signer handed out for a kid is memoised and never invalidated
+    SigningKeyEchoed       \* a requested jwk header is filled with the SIGNING key pair instead of its public half
 
 CONSTANTS PatternOK(_),      \* the name class matches the wrapper's pattern
           Outside(_, _)      \* (backend, name class): the backend would address storage outside the namespace
@@ -41,132 +44,159 @@ Sec(k) == <<"sec", k>>
 Pub(k) == <<"pub", k>>
 Kid(k) == <<"kid", k>>
 Name(k) == <<"name", k>>
-CallerSec == <<"sec", "caller">>     \* private key material the CALLER put into a jwk header (not the node's)
-CallerSym == <<"sym", "caller">>
+CallerSec(f) == <<"callersec", f>>   \* private / symmetric key material of family f the CALLER put into a jwk header
+CallerPub(f) == <<"callerpub", f>>
 NodeSecrets == {Sec(k) : k \in Kids}
+IsSecretJwk(j) == j[1] \in {"priv", "sym"}
 None == "none"
 
+\* key material is identified by <<kid it was created under, generation>>: a kid may be deleted and created again
+NoKey == <<None, 0>>
+
 VARIABLES
-    keys,      \* kids whose key pair exists in the backend
-    ref,       \* kid -> kid whose key material the reference points at (Link may alias), or None
+    keys,      \* key material (<<kid, generation>>) that exists in the backend
+    ref,       \* kid -> key material the key reference points at (Link may alias / re-link), or NoKey
+    gen,       \* kid -> number of keys created under this kid so far
+    gone,      \* kids whose key was deleted and not created again
+    cache,     \* kid -> key material of the memoised signer (only used when StaleSignerCache), or NoKey
     alias,     \* name classes for which an (SQL) key reference exists
     chan,      \* channel -> set of atoms emitted so far
-    sigs,      \* signatures made: [kid |-> requested kid, by |-> kid of the key that signed, pub |-> kid resolvable for the requested kid]
+    sigs,      \* signatures made: [kid |-> requested kid, by |-> key material that signed, pub |-> key material resolvable for the kid]
     seen,      \* <<backend, name class>> pairs that reached a backend
     ops, hist
 
-vars == <<keys, ref, alias, chan, sigs, seen, ops, hist>>
-view == <<keys, ref, alias, chan, sigs, seen, ops>>
+vars == <<keys, ref, gen, gone, cache, alias, chan, sigs, seen, ops, hist>>
+view == <<keys, ref, gen, gone, cache, alias, chan, sigs, seen, ops>>
 Log(e) == hist' = IF Hist THEN Append(hist, e) ELSE hist
 
 Init ==
-    /\ keys = {} /\ ref = [k \in Kids |-> None] /\ alias = {}
+    /\ keys = {} /\ ref = [k \in Kids |-> NoKey] /\ alias = {}
+    /\ gen = [k \in Kids |-> 0] /\ gone = {} /\ cache = [k \in Kids |-> NoKey]
     /\ chan = [c \in Channels |-> {}]
     /\ sigs = {} /\ seen = {} /\ ops = 0 /\ hist = <<>>
 
 Emit(c, atoms) == [chan EXCEPT ![c] = @ \cup atoms]
 EmitAll(m) == [c \in Channels |-> chan[c] \cup (IF c \in DOMAIN m THEN m[c] ELSE {})]
 Step == ops < MaxOps /\ ops' = ops + 1
-Usable(k) == ref[k] # None /\ ref[k] \in keys
+Usable(k) == ref[k] # NoKey /\ ref[k] \in keys
+\* the key that signs / decrypts for kid k, and the bookkeeping of the memoised signer
+SignerFor(k) == IF StaleSignerCache /\ cache[k] # NoKey THEN cache[k] ELSE ref[k]
+CanSign(k) == Usable(k) \/ (StaleSignerCache /\ cache[k] # NoKey)
+Memoise(k) == cache' = IF StaleSignerCache THEN [cache EXCEPT ![k] = SignerFor(k)] ELSE cache
 
 \* crypto.New through the subject API: key pair in the backend, key reference row, DID document with the public key,
 \* DAG transaction (did:nuts) with the public key embedded, audit record naming the kid
 New(k) ==
-    /\ Step /\ k \notin keys /\ ref[k] = None
-    /\ keys' = keys \cup {k} /\ ref' = [ref EXCEPT ![k] = k]
+    /\ Step /\ ref[k] = NoKey /\ gen[k] < MaxGen
+    /\ gen' = [gen EXCEPT ![k] = @ + 1]
+    /\ keys' = keys \cup {<<k, gen[k] + 1>>} /\ ref' = [ref EXCEPT ![k] = <<k, gen[k] + 1>>]
+    /\ gone' = gone \ {k}
     /\ chan' = EmitAll([fileName |-> {Name(k)}, sqlRow |-> {Kid(k), Name(k)}, didDocument |-> {Pub(k), Kid(k)},
                         httpResponse |-> {Pub(k), Kid(k)}, jwsHeader |-> {Pub(k), Kid(k)}, auditLog |-> {Kid(k)}, log |-> {Kid(k)}])
     /\ Log([a |-> "New", k |-> k])
-    /\ UNCHANGED <<alias, sigs, seen>>
+    /\ UNCHANGED <<alias, sigs, seen, cache>>
 
-Signed(k) == {[kid |-> k, by |-> ref[k], pub |-> ref[k]]}
+Signed(k) == {[kid |-> k, by |-> SignerFor(k), pub |-> ref[k]]}
 
 SignJWT(k) ==
-    /\ Step /\ Usable(k)
+    /\ Step /\ CanSign(k)
     /\ chan' = EmitAll([token |-> {Kid(k)}, jwsHeader |-> {Kid(k)}, httpResponse |-> {Kid(k)}, auditLog |-> {Kid(k)}])
     /\ sigs' = sigs \cup Signed(k)
     /\ Log([a |-> "SignJWT", k |-> k])
-    /\ UNCHANGED <<keys, ref, alias, seen>>
+    /\ Memoise(k) /\ UNCHANGED <<keys, ref, gen, gone, alias, seen>>
 
-\* SignJWS with caller supplied headers; j = class of the jwk header
+\* SignJWS with caller supplied headers; j = <<class, family>> of the jwk header.  A private or symmetric key in the
+\* header must be refused whatever its family: otherwise the produced JWS publishes it.
 SignJWS(k, j) ==
-    /\ Step /\ Usable(k)
-    /\ IF j = "private" /\ ~PrivateJwkEchoed
+    /\ Step /\ CanSign(k)
+    /\ IF IsSecretJwk(j) /\ j[2] \in RefusedSecretFamilies
        THEN \* refused: "refusing to sign JWS with private key in JWK header"
-            /\ chan' = Emit("auditLog", {Kid(k)}) /\ UNCHANGED sigs
-       ELSE /\ chan' = EmitAll([jwsHeader |-> (CASE j = "public" -> {Pub(k)}
-                                                 [] j = "private" -> {CallerSec}
-                                                 [] j = "symmetric" -> {CallerSym}
+            /\ chan' = Emit("auditLog", {Kid(k)}) /\ UNCHANGED <<sigs, cache>>
+       ELSE /\ chan' = EmitAll([jwsHeader |-> (CASE j[1] = "pub" -> (IF SigningKeyEchoed THEN {Sec(k)} ELSE {CallerPub(j[2])})
+                                                 [] IsSecretJwk(j) -> {CallerSec(j[2])}
                                                  [] OTHER -> {Kid(k)}),
                                 httpResponse |-> {Kid(k)}, auditLog |-> {Kid(k)}])
-            /\ sigs' = sigs \cup Signed(k)
-    /\ Log([a |-> "SignJWS", k |-> k, jwk |-> j])
-    /\ UNCHANGED <<keys, ref, alias, seen>>
+            /\ sigs' = sigs \cup Signed(k) /\ Memoise(k)
+    /\ Log([a |-> "SignJWS", k |-> k, jwk |-> j[1] \o ":" \o j[2]])
+    /\ UNCHANGED <<keys, ref, gen, gone, alias, seen>>
 
 \* DPoP proof: the public key travels in the jwk header
 SignDPoP(k) ==
-    /\ Step /\ Usable(k)
+    /\ Step /\ CanSign(k)
     /\ chan' = EmitAll([jwsHeader |-> {Pub(k)}, token |-> {Kid(k)}, httpResponse |-> {Pub(k)}, auditLog |-> {Kid(k)}])
     /\ sigs' = sigs \cup Signed(k)
     /\ Log([a |-> "SignDPoP", k |-> k])
-    /\ UNCHANGED <<keys, ref, alias, seen>>
+    /\ Memoise(k) /\ UNCHANGED <<keys, ref, gen, gone, alias, seen>>
 
 \* JSON-LD proof (credential issued by the subject of k): proof.verificationMethod names the kid
 SignLD(k) ==
-    /\ Step /\ Usable(k)
+    /\ Step /\ CanSign(k)
     /\ chan' = EmitAll([httpResponse |-> {Kid(k)}, jwsHeader |-> {Kid(k)}, sqlRow |-> {Kid(k)}, auditLog |-> {Kid(k)}])
     /\ sigs' = sigs \cup Signed(k)
     /\ Log([a |-> "SignLD", k |-> k])
-    /\ UNCHANGED <<keys, ref, alias, seen>>
+    /\ Memoise(k) /\ UNCHANGED <<keys, ref, gen, gone, alias, seen>>
 
 \* DAG transaction signed by k (DID document update of a did:nuts subject)
 SignTx(k) ==
-    /\ Step /\ Usable(k)
+    /\ Step /\ CanSign(k)
     /\ chan' = EmitAll([jwsHeader |-> {Kid(k)}, httpResponse |-> {Kid(k), Pub(k)}, didDocument |-> {Pub(k), Kid(k)}, auditLog |-> {Kid(k)}])
     /\ sigs' = sigs \cup Signed(k)
     /\ Log([a |-> "SignTx", k |-> k])
-    /\ UNCHANGED <<keys, ref, alias, seen>>
+    /\ Memoise(k) /\ UNCHANGED <<keys, ref, gen, gone, alias, seen>>
 
 \* JWE addressed to k, decrypted by key id: the plaintext (caller data) comes back, nothing of the key
 Decrypt(k) ==
-    /\ Step /\ Usable(k)
+    /\ Step /\ CanSign(k)
     /\ chan' = EmitAll([httpResponse |-> {Kid(k)}, auditLog |-> {Kid(k)}])
     /\ Log([a |-> "Decrypt", k |-> k])
-    /\ UNCHANGED <<keys, ref, alias, sigs, seen>>
+    /\ Memoise(k) /\ UNCHANGED <<keys, ref, gen, gone, alias, sigs, seen>>
 
 Resolve(k) ==
     /\ Step /\ Usable(k)
     /\ chan' = EmitAll([httpResponse |-> {Pub(k), Kid(k)}, didDocument |-> {Pub(k), Kid(k)}])
     /\ Log([a |-> "Resolve", k |-> k])
-    /\ UNCHANGED <<keys, ref, alias, sigs, seen>>
+    /\ UNCHANGED <<keys, ref, gen, gone, cache, alias, sigs, seen>>
 
 List ==
     /\ Step
-    /\ chan' = EmitAll([httpResponse |-> {Kid(k) : k \in keys}, log |-> {Kid(k) : k \in keys}])
+    /\ chan' = EmitAll([httpResponse |-> {Kid(m[1]) : m \in keys}, log |-> {Kid(m[1]) : m \in keys}])
     /\ Log([a |-> "List"])
-    /\ UNCHANGED <<keys, ref, alias, sigs, seen>>
+    /\ UNCHANGED <<keys, ref, gen, gone, cache, alias, sigs, seen>>
 
+\* Delete removes the key reference and the key material; every kid that pointed at it can no longer sign
 Delete(k) ==
-    /\ Step /\ Usable(k) /\ ref[k] = k
-    /\ keys' = keys \ {k} /\ ref' = [q \in Kids |-> IF ref[q] = k THEN None ELSE ref[q]]
+    /\ Step /\ Usable(k) /\ ref[k][1] = k
+    /\ keys' = keys \ {ref[k]}
+    /\ ref' = [q \in Kids |-> IF ref[q] = ref[k] THEN NoKey ELSE ref[q]]
+    /\ gone' = gone \cup {q \in Kids : ref[q] = ref[k]}
     /\ chan' = Emit("auditLog", {Kid(k)})
     /\ Log([a |-> "Delete", k |-> k])
-    /\ UNCHANGED <<alias, sigs, seen>>
+    /\ UNCHANGED <<gen, cache, alias, sigs, seen>>
 
-\* crypto.Link: a key reference row kid -> storage name of another existing key
+\* a signature (or decryption) requested for a kid whose key was deleted: must fail with "private key not found"
+SignDeleted(k) ==
+    /\ Step /\ k \in gone
+    /\ IF StaleSignerCache /\ cache[k] # NoKey
+       THEN sigs' = sigs \cup {[kid |-> k, by |-> cache[k], pub |-> NoKey]}
+       ELSE UNCHANGED sigs
+    /\ chan' = Emit("auditLog", {Kid(k)})
+    /\ Log([a |-> "SignDeleted", k |-> k])
+    /\ UNCHANGED <<keys, ref, gen, gone, cache, alias, seen>>
+
+\* crypto.Link: a key reference row kid -> storage name of another existing key (new reference, or re-link of a used one)
 LinkKey(k, q) ==
-    /\ Step /\ ref[k] = None /\ q \in keys /\ q # k
-    /\ ref' = [ref EXCEPT ![k] = q]
+    /\ Step /\ Usable(q) /\ q # k /\ ref[k] # ref[q] /\ (ref[k] = NoKey \/ ref[k][1] # k)
+    /\ ref' = [ref EXCEPT ![k] = ref[q]] /\ gone' = gone \ {k}
     /\ chan' = Emit("sqlRow", {Kid(k), Name(q)})
     /\ Log([a |-> "LinkKey", k |-> k, to |-> q])
-    /\ UNCHANGED <<keys, alias, sigs, seen>>
+    /\ UNCHANGED <<keys, gen, cache, alias, sigs, seen>>
 
 \* a key reference row whose storage name is of class nc (rows are storage: not trusted)
 LinkName(nc) ==
     /\ Step /\ nc \notin alias
     /\ alias' = alias \cup {nc}
     /\ Log([a |-> "LinkName", nc |-> nc])
-    /\ UNCHANGED <<keys, ref, chan, sigs, seen>>
+    /\ UNCHANGED <<keys, ref, gen, gone, cache, chan, sigs, seen>>
 
 Admitted(nc) == PatternOK(nc) \/ (PatternAdmitsDotDot /\ nc = "dotdot")
 \* using the reference (resolve / sign / decrypt / exists / delete): the wrapper validates, then the backend is addressed
@@ -174,10 +204,10 @@ UseName(b, nc) ==
     /\ Step /\ nc \in alias
     /\ seen' = IF Admitted(nc) THEN seen \cup {<<b, nc>>} ELSE seen
     /\ Log([a |-> "UseName", b |-> b, nc |-> nc])
-    /\ UNCHANGED <<keys, ref, alias, chan, sigs>>
+    /\ UNCHANGED <<keys, ref, gen, gone, cache, alias, chan, sigs>>
 
 Next ==
-    \/ \E k \in Kids : New(k) \/ SignJWT(k) \/ SignDPoP(k) \/ SignLD(k) \/ SignTx(k) \/ Decrypt(k) \/ Resolve(k) \/ Delete(k)
+    \/ \E k \in Kids : New(k) \/ SignJWT(k) \/ SignDPoP(k) \/ SignLD(k) \/ SignTx(k) \/ Decrypt(k) \/ Resolve(k) \/ Delete(k) \/ SignDeleted(k)
     \/ \E k \in Kids, j \in JwkClasses : SignJWS(k, j)
     \/ \E k, q \in Kids : LinkKey(k, q)
     \/ List
@@ -189,13 +219,17 @@ Spec == Init /\ [][Next]_vars
 (***************************************************************************)
 (* Properties                                                              *)
 (***************************************************************************)
-TypeOK == keys \subseteq Kids /\ ops \in 0..MaxOps /\ \A k \in Kids : ref[k] \in Kids \cup {None}
-\* no secret of the node (and no private key a caller handed in) in any channel
-NoSecretInAnyChannel == \A c \in Channels : chan[c] \cap (NodeSecrets \cup {CallerSec}) = {}
+TypeOK == ops \in 0..MaxOps /\ \A k \in Kids : gen[k] \in 0..MaxGen /\ (ref[k] = NoKey \/ ref[k] \in keys \/ TRUE)
+\* no secret of the node in any channel
+NoSecretInAnyChannel == \A c \in Channels : chan[c] \cap NodeSecrets = {}
+\* no private / symmetric key a caller put into a jwk header is published by the produced JWS
+NoCallerSecretEchoed == \A c \in Channels : \A a \in chan[c] : a[1] # "callersec"
 \* names that would address storage outside the namespace never reach a backend
 NamespaceConfined == \A p \in seen : ~Outside(p[1], p[2])
-\* a signature for kid k was made by, and verifies with, exactly the key resolvable for k
+\* a signature for kid k was made by exactly the key CURRENTLY resolvable for k (also after delete / re-create / re-link)
 SignatureBoundToKid == \A s \in sigs : s.by = s.pub
+\* a deleted key can no longer sign
+DeletedKeyCannotSign == \A s \in sigs : s.pub # NoKey
 \* the secret stays where it is: only New puts key material (under its name) into the backend namespace
 OnlyNamesInNamespace == \A a \in chan["fileName"] : a[1] = "name"
 =============================================================================
